@@ -73,20 +73,27 @@ def r1_stable_insertion(ctx):
         for (l, db, di, _) in pre:
             st = f.stmts(db)[di] if di != 'T' else None
             if st is not None:
-                t0 = f.expr_rvalue(st['r'], db, di)
+                t0 = ptr_norm(f.expr_rvalue(st['r'], db, di))    # `NonNull::from(&mut *self.tail)` starts at the tail just as `&mut *self.tail` does
                 if peel(t0)[0] == 'call' and not peel(t0)[1].startswith(('<', 'std::', 'core::')):
                     starts.add('call:' + short(peel(t0)[1]))
                 else:
                     starts.add(receiver_field(t0))
             else:
-                starts.add('call')
+                # defined by a call: a pointer wrapper around the sentinel (`NonNull::from(&mut *self.tail)`) starts where its operand does
+                tm = f.term(db)
+                t1 = None
+                if tm['k'] == 'call' and len(tm['args']) == 1 and strip_generics(tm.get('res') or tm.get('callee') or '') in \
+                        ('std::ptr::NonNull::from', '<std::ptr::NonNull as std::convert::From>::from', 'std::ptr::NonNull::new_unchecked', 'std::ptr::NonNull::new'):
+                    t1 = ptr_norm(f.expr_operand(tm['args'][0], db, 'T'))
+                rf_ = receiver_field(t1) if t1 is not None else None
+                starts.add(rf_ if rf_ else 'call')
         start = next(iter(starts)) if len(starts) == 1 else ('mixed:' + '/'.join(sorted(map(str, starts))))
         # advance predicate
         atoms = [a for s, a in f.guard_atoms(b) if s in loops[h]]
         pred = None
         for a in atoms:
             if a[0] == 'cmp':
-                l, r = a[2], a[3]
+                l, r = ptr_norm(a[2]), ptr_norm(a[3])
                 lt = _is_time_of_var(l, f, var)
                 rt = _is_time_of_var(r, f, var)
                 if lt and not rt:
@@ -240,7 +247,7 @@ def r1b_all_time_walks(ctx):
                     atoms = [a for s2, a in f.guard_atoms(b) if s2 in body and a[0] == 'cmp']
                     timed = []
                     for a in atoms:
-                        l, r, op = a[2], a[3], a[1]
+                        l, r, op = ptr_norm(a[2]), ptr_norm(a[3]), a[1]
                         lt = l[0] == 'field' and l[2] == 'time' and l[1][0] in ('local', 'phi')
                         rt = r[0] == 'field' and r[2] == 'time' and r[1][0] in ('local', 'phi')
                         if lt and not rt:
